@@ -41,6 +41,8 @@ pub enum Action {
     /// transfer_to_new_account (same authority keeps control; new account key is derived)
     Transfer { u: usize },
     CloseAccount { u: usize },
+    /// close the user's *original* account (after a transfer it is the migrated-away, disabled one)
+    CloseOriginal { u: usize },
     CloseBank { b: usize },
     Freeze { u: usize, on: bool },
     /// time passes; oracles are cranked (their publish time follows the clock)
@@ -175,6 +177,7 @@ pub fn user_ix(w: &World, s: &Store, a: &Action, signer: Pubkey) -> Option<Ix> {
             ix::transfer_to_new_account(g, old, next_account_key(&old), signer, w.payer, w.users[*u].authority, w.fee_wallet)
         }
         Action::CloseAccount { u } => ix::account_close(acct(*u), signer, w.payer),
+        Action::CloseOriginal { u } => ix::account_close(w.users[*u].account, signer, w.payer),
         Action::CloseBank { b } => ix::close_bank(g, w.banks[*b].key, signer),
         Action::Freeze { u, on } => ix::set_account_freeze(g, acct(*u), signer, *on),
         Action::Advance { .. } | Action::AdvanceStale { .. } | Action::SetPrice { .. } => return None,
@@ -185,7 +188,7 @@ pub fn user_ix(w: &World, s: &Store, a: &Action, signer: Pubkey) -> Option<Ix> {
 pub fn extra_signers(w: &World, s: &Store, a: &Action) -> Vec<Pubkey> {
     match a {
         Action::Transfer { u } => vec![w.payer, next_account_key(&cur_account(w, s, *u))],
-        Action::CloseAccount { .. } => vec![w.payer],
+        Action::CloseAccount { .. } | Action::CloseOriginal { .. } => vec![w.payer],
         _ => vec![],
     }
 }
@@ -199,7 +202,7 @@ pub fn default_signer(w: &World, a: &Action) -> Option<Pubkey> {
         Action::Bankruptcy { signer, u, .. } => signer_key(w, signer, Some(*u)),
         Action::Accrue { .. } | Action::CollectFees { .. } => w.payer,
         Action::TokenlessRepay { .. } | Action::Purge { .. } | Action::ForceTokenlessComplete { .. } => w.roles.risk,
-        Action::Transfer { u } | Action::CloseAccount { u } => w.users[*u].authority,
+        Action::Transfer { u } | Action::CloseAccount { u } | Action::CloseOriginal { u } => w.users[*u].authority,
         Action::CloseBank { .. } | Action::Freeze { .. } => w.roles.admin,
         _ => return None,
     })
